@@ -117,6 +117,21 @@ def main():
             n += 1
             if (res < 0).any():
                 return dict(reproduced=True, call='stochastic simulation %r of %r from %r' % (mode, rx, x0), observed=float(res.min()), expected='>= 0')
+    # 6. an ensemble over seeds on ONE Model with a delayed reaction, in the simulators without delay support (immediate + delayed part applied
+    #    at the firing): every run is a path of the same reaction lattice (the model's stoichiometry is the same in every run) and A + B is conserved
+    for it in range(SPEC.get('rounds_ensemble', 4)):
+        A0 = rng.randint(8, 20)
+        M = Model(species=['A', 'B'], reactions=[(['A'], [], 'massaction', {'k': rng.uniform(0.3, 1.5)}, 'fixed', [], ['B'], {'delay': 1.0})], initial_condition_dict={'A': A0, 'B': 0})
+        U0, D0 = M.py_get_update_array().copy(), M.py_get_delay_update_array().copy()
+        for run in range(4):
+            for mode in (dict(), dict(safe=True), dict(volume=1.0)):
+                py_seed_random(rng.randint(1, 10 ** 6))
+                res = py_simulate_model(T, Model=M, stochastic=True, return_dataframe=False, **mode).py_get_result()
+                n += 1
+                if not np.array_equal(res.sum(axis=1), np.full(len(T), float(A0))) or not (np.array_equal(M.py_get_update_array(), U0) and np.array_equal(M.py_get_delay_update_array(), D0)):
+                    return dict(reproduced=True, call='run %d of an ensemble on one Model (A -> delayed B, no delay support requested, %r)' % (run, mode),
+                                observed=dict(row_sums=sorted(set(res.sum(axis=1).tolist())), stoichiometry=[M.py_get_update_array().tolist(), M.py_get_delay_update_array().tolist()]),
+                                expected=dict(row_sums=[float(A0)], stoichiometry=[U0.tolist(), D0.tolist()]))
     return dict(reproduced=False, evaluations=n)
 
 
